@@ -365,7 +365,9 @@ def default_modifier(op, **kwargs):
             alpha, att = common.expand_arrays(alpha, att, append=True)
             # keep the declared derivatives: d(att * alpha) = att * d(alpha)
             scale = lambda coeffs: {
-                param: coeffs[param] * att if param == "alpha" else coeffs[param]
+                param: np.multiply(*common.expand_arrays(coeffs[param], att, append=True))
+                if param == "alpha"
+                else coeffs[param]
                 for param in coeffs
             }
             order1 = {var: scale(op.order1[var]) for var in op.order1}
